@@ -101,6 +101,7 @@ impl Sut {
         let _ = recorder();
         let _ = rt::sched();
         let marks = rt::thread_marks();
+        recorder().weight_last.store(0, Ordering::SeqCst);
         let applied_base = recorder().applied.load(Ordering::SeqCst);
         let sweeps_base = recorder().sweeps();
         let sent_base = recorder().sent.load(Ordering::SeqCst);
